@@ -24,7 +24,7 @@ from fractions import Fraction as F
 
 from ..loader import AnalysisError
 from ..pe import (ConfigRejected, PE, Tensor, Obj, explore, PyRaise, Func,
-                  show_term, Var, Mock)
+                  show_term, Var, Mock, Unsupported)
 from .. import qref, quant, pwa
 from ..qir import Fwd, mk_app, simplify_app, Eval, Env
 from ..nf import NF, show
@@ -304,6 +304,54 @@ def rule_single_source(rep, repo, mod):
                           "reads" if Fwd()(out.term).depends_on(
                               ("sym", "g")) else "does not read"),
                 loc=ci.loc(), instance=qcls)
+
+
+def rule_variable_isolation(rep, repo, rule="R2"):
+  """Every quantizer owns its noise factor: (a) two variable-backed
+  quantizers that were given the SAME var_name, (b) a quantizer whose factor
+  was set with update_qnoise_factor(<the variable of another quantizer>) -
+  in both cases an update of the other quantizer afterwards leaves this
+  one's factor (and so its output) alone.  Returns the number of pairs."""
+  qm = repo.module(quant.QMOD)
+  n = 0
+  for qcls in KNOB_CLASSES:
+    ci = qm.classes.get(qcls)
+    if ci is None or "use_variables" not in [p_ for p_, _ in
+                                             ci.init_params()[0]]:
+      continue
+    unit = "%s::%s" % (qm.relpath, qcls)
+    for label in ("same var_name", "factor copied from the other's variable"):
+      pe = PE(repo)
+      cfg = "two %s(use_variables=True): %s, then the other is updated to " \
+          "0" % (qcls, label)
+      try:
+        kw = {"use_variables": True}
+        if label == "same var_name":
+          kw["var_name"] = "block1"
+        q1 = pe.call(pe.lookup_global(qcls, qm), [], dict(kw))
+        q2 = pe.call(pe.lookup_global(qcls, qm), [], dict(kw))
+        pe.call(q1, [pe.x_input()], {})
+        ref = pe.call(q2, [pe.x_input()], {})
+        if label != "same var_name":
+          pe.call(pe.getattr(q2, "update_qnoise_factor"),
+                  [q1.attrs.get("qnoise_factor")], {})
+        pe.call(pe.getattr(q1, "update_qnoise_factor"), [F(0)], {})
+        out = pe.call(q2, [pe.x_input()], {})
+      except (PyRaise, Unsupported):
+        continue
+      n += 1
+      same = all(Fwd(ph)(out.term) == Fwd(ph)(ref.term)
+                 for ph in ("infer", "train"))
+      rep.check(same and q2.attrs.get("qnoise_factor") is not q1.attrs.get(
+          "qnoise_factor"), rule, unit, "noise-factor-shared",
+                "%s: this quantizer now computes %s (before: %s); the two "
+                "hold %s variable" % (
+                    cfg, show(Fwd()(out.term), 120), show(Fwd()(ref.term),
+                                                          120),
+                    "the same" if q2.attrs.get("qnoise_factor") is
+                    q1.attrs.get("qnoise_factor") else "their own"),
+                loc=ci.loc(), instance="%s/%s" % (qcls, label))
+  return n
 
 
 # ---------------------------------------------------------------------------
@@ -854,6 +902,8 @@ def run(rep, repo, tier):
   rule_time(rep, repo)
   rule_reach(rep, repo)
   rule_scheduler_run(rep, repo, tier)
+  if rule_variable_isolation(rep, repo) < 6:
+    raise AnalysisError("instance-count variable-isolation pairs")
   rep.require_instances("R6", 18)
   rep.require_instances("R1", 1500)
   rep.require_instances("R2", 10)
